@@ -162,6 +162,13 @@ Init == \E c \in Coins : \E sh \in {x \in Shapes : ShapeOK(c, x)} : InitWith(c, 
 (*      nothing and nothing may change.                                       *)
 Containers == {"none", "set", "list", "tuple"}
 Mechs == {"lookup", "wifs", "keychain"}
+(* Front-ends.  "lookup" is Tx.sign(table), "wifs" is tx_utils.sign_tx(tx, wifs), "keychain" is        *)
+(* Solver.sign(keychain): all three sign in place and return; how far they got is read off           *)
+(* bad_solution_count() = the number of inputs that do not validate.  "create_signed" is             *)
+(* tx_utils.create_signed_tx(spendables, payables, wifs): it builds the transaction, signs every      *)
+(* input with the WIFs (so it is only a first pass over all inputs) and must RAISE - not return a     *)
+(* transaction as if signed - exactly when some input was left failing validation.                    *)
+FrontEnds == Mechs \cup {"create_signed"}
 
 KcRegAfter(p) == IF p.mech # "keychain" THEN kcReg ELSE IF p.fresh THEN p.reg ELSE kcReg \cup p.reg
 KcSecAfter(p) == IF p.mech # "keychain" THEN kcSec ELSE IF p.fresh THEN p.sec ELSE kcSec \cup p.sec
@@ -172,7 +179,8 @@ Supplied(p) == IF p.mech = "keychain"
                THEN {k \in KcRegAfter(p) : MasterOf(k) \in KcSecAfter(p)}
                ELSE p.K
 
-PassOK(p) == /\ p.mech \in Mechs /\ p.K \subseteq Keys /\ p.I \subseteq Ins /\ p.ht \in HashTypes
+PassOK(p) == /\ p.mech \in FrontEnds /\ (p.mech = "create_signed" => npass = 0 /\ p.I = Ins /\ p.ic = "none")
+             /\ p.K \subseteq Keys /\ p.I \subseteq Ins /\ p.ht \in HashTypes
              /\ p.scr \in BOOLEAN /\ p.reg \subseteq Keys /\ p.sec \subseteq Masters /\ p.fresh \in BOOLEAN
              /\ p.ic \in Containers /\ (p.ic = "none" => p.I = Ins)
 
@@ -216,6 +224,13 @@ SignPassWith(p, ch) ==
     /\ npass' = npass + 1
     /\ UNCHANGED <<coin, shape, frame>>
 SignPass(p) == \E ch \in PassChoices(p, NIn) : SignPassWith(p, ch)
+
+\* what the front-end reports when the pass leaves the signers ch: the count of inputs that still
+\* fail validation (whatever their position, whatever the number of outputs), and whether
+\* create_signed_tx raises
+BadAfter(ch) == Cardinality({i \in Ins : Cardinality(ch[i]) < Need(i)})
+Reports(p, ch) == [bad |-> BadAfter(ch), raises |-> p.mech = "create_signed" /\ BadAfter(ch) > 0]
+BadNow == Cardinality({i \in Ins : ~valid[i]})
 
 (* The long-lived keychain is an object with a history of its own: between    *)
 (* passes the caller may register more key paths (R), add the private node of *)
